@@ -104,7 +104,12 @@ def c03j_run(tid, wcfg, cfgline, seed):
     def deliver(name):
         def f():
             if rec.pre['trcs'] == 'open':
-                if name in special:
+                if name == 'RESTSEND':
+                    # the operator sends an UPDATE through REST: what the agent sends itself must not change its keepalive cadence
+                    if rec.pre['st'] == 'ESTABLISHED':
+                        rec.step({'k': 'rest', 'c': 0, 'rule': 'send/update', 'method': 'POST', 'cred': 'good', 'm': 'announce',
+                                  'body': {'attr': {'1': 0, '2': [[2, [65001]]], '3': '10.0.0.1'}, 'nlri': ['10.77.0.0/16']}}, 0)
+                elif name in special:
                     d = special[name]
                     rec.step({'k': 'data', 'c': c, 'hex': d.hex(), 'cls': 'UPD', 'm': name}, c, data=d, extra={'flen': len(d)})
                 else:
@@ -124,7 +129,7 @@ def c03j_run(tid, wcfg, cfgline, seed):
             dt = rnd.randint(1, 3)
         else:
             dt = rnd.randint(1, max(2, (H if H else 60) * UNIT // 2))
-        msg = rnd.choice(['KA', 'KA', 'UPD', 'UPDBAD', 'UPDMPX', 'UPDMPUX', 'UPDUNK', 'RR', None, None])
+        msg = rnd.choice(['KA', 'KA', 'UPD', 'UPDBAD', 'UPDMPX', 'UPDMPUX', 'UPDUNK', 'RR', 'RESTSEND', 'RESTSEND', None, None])
         advance(dt, deliver(msg) if msg else None)
     return rec.lines
 
@@ -294,6 +299,8 @@ C05_CONFIGS = [
     dict(las=65001, ras=65001, four_bytes_as=True),
     dict(las=1, ras=4294967295, four_bytes_as=True, caps=['route_refresh']),
     dict(las=70000, ras=65002, four_bytes_as=False, caps=[]),
+    dict(las=65001, ras=23456, four_bytes_as=True),          # the configured remote AS is the AS_TRANS value itself
+    dict(las=23456, ras=65002, four_bytes_as=True),
     dict(las=65001, ras=65002, four_bytes_as=True, add_path='ipv4_both', afi_safi=['ipv4', 'ipv6', 'flowspec']),
     # what the socket reports as the local address changes from connection to connection (the identifier must not)
     dict(las=65001, ras=65002, four_bytes_as=True, hosts=['raise', '10.0.0.1', '10.0.0.7']),
